@@ -27,12 +27,14 @@ theorem c11_source_order :
     soloSrc .addThenStore (init [] [[.push 5]]) 5 = Gen.C11.pushOps.takeWhile (· ≠ .gosched) ∧
     soloSrc .addThenStore (init [9] [[.pop]]) 7 = Gen.C11.popOps ∧
     soloSrc .addThenStore (init [9] [[.len]]) 1 = Gen.C11.lenOps ∧
+    (Gen.C11.pushCtl = [.loop, .cond "if", .ret] ∧
+      Gen.C11.popCtl = [.cond "if", .ret, .cond "if", .ret, .ret] ∧ Gen.C11.lenCtl = [.ret]) ∧
     Gen.C11.popWaitOps =
       [.cond "d < 0", .loop, .callPop, .ret, .gosched, .callPop, .ret, .cond "d == 0", .ret,
        .ticker, .loop, .other "recv ticker.C", .callPop, .ret, .cond "now.Sub(begin) >= d", .ret] ∧
     soloSrc .addThenStore (init [] [[.popWait true]]) 6 =
       Gen.C11.popOps.take 2 ++ [.gosched] ++ Gen.C11.popOps.take 2 ++ [.gosched] :=
-  ⟨facts_push_success_path, facts_pop_success_path, facts_len, facts_popwait_shape,
+  ⟨facts_push_success_path, facts_pop_success_path, facts_len, facts_ctl, facts_popwait_shape,
     facts_popwait_model.1⟩
 
 /-- `c11_inv`: in every reachable state `head ≤ tail < |chain| ≤ tail + 2` (the tail lags
